@@ -1647,6 +1647,26 @@ def rule_empty_range_guard(prog):
         out.add(eb[0]["d"], "the range of a diagnostic starts behind the comments in front of the construct", tests, c.loc(eb[0]["sp"]),
                 "the start of the text range is the start of the node's first token, comments included: `// note⏎ i := a;` reports "
                 "`assignment has different types` on the comment line as well", ("diagstart",))
+        # ... and behind *all* of them: each comment line is a token of its own.  The comment test is the predicate of a search
+        # (find / position / skip_while / a loop); a test that sits in an arm of a match over slice patterns looks at a fixed number
+        # of tokens (`[comment, first, ..]`) and leaves the second comment line inside the range
+        SEARCH = ("find", "position", "rposition", "skip_while", "take_while", "filter", "find_map", "filter_map", "rfind", "any", "all", "trim_start_matches")
+        searched = fixed = False
+        for x, parents in hir.walk(eb[0]["body"]):
+            pats = [a_["pat"] for a_ in x["arms"]] if x.get("k") == "Match" else [x["pat"]] if x.get("k") == "LetExpr" else []
+            if not any("spl_frontend::tokens::TokenType::Comment" in hir.pat_variants_all(pt) for pt in pats):
+                continue
+            in_search = any((p_.get("k") == "MethodCall" and p_["m"] in SEARCH) or p_.get("k") in ("Loop", "While", "ForLoop") for p_ in parents)
+            in_slice_arm = any(p_.get("k") == "Match" and any(hir.pat_strip(a_["pat"]).get("k") == "Slice" for a_ in p_["arms"]) for p_ in parents)
+            if in_search:
+                searched = True
+            elif in_slice_arm:
+                fixed = True
+        if tests:
+            out.add(eb[0]["d"], "all the comments in front of the construct are skipped, however many", True if searched else (False if fixed else None),
+                    c.loc(eb[0]["sp"]), "the comment test %s" % ("is the predicate of a search over the tokens" if searched else
+                    "sits in an arm over slice patterns: a fixed number of leading tokens is looked at, `// a⏎ // b⏎ f();` reports on line b"
+                    if fixed else "is of a shape not read here"), ("diagstart",))
         # the text range of a diagnostic is taken from the tokens its token range names: the slice `tokens[range]`, or the token at the
         # range's own bound for an empty range.  A neighbour (`tokens[range.end + 1]`) may belong to the next declaration.
         defs = _let_defs(eb[0]["body"])
